@@ -95,12 +95,23 @@ type VPower struct {
 	Power     string
 }
 
+type VFeeder struct {
+	ID       uint64
+	TokenID  uint64
+	Start    uint64
+	Interval uint64
+	StartRd  uint64
+	End      uint64
+}
+
 type VDump struct {
-	Nil     bool
-	Powers  []VPower
-	Total   string
-	Rounds  []VRound
-	Workers []VWorker
+	Nil      bool
+	Feeders  []VFeeder // agc.params.TokenFeeders (index 0 skipped)
+	MaxNonce int32
+	Powers   []VPower
+	Total    string
+	Rounds   []VRound
+	Workers  []VWorker
 }
 
 func bs(b *big.Int) string {
@@ -116,6 +127,15 @@ func (agc *AggregatorContext) VerifDump() *VDump {
 		return &VDump{Nil: true}
 	}
 	d := &VDump{Total: bs(agc.totalPower)}
+	if agc.params != nil {
+		d.MaxNonce = agc.params.MaxNonce
+		for i, f := range agc.params.TokenFeeders {
+			if i == 0 || f == nil {
+				continue
+			}
+			d.Feeders = append(d.Feeders, VFeeder{uint64(i), f.TokenID, f.StartBaseBlock, f.Interval, f.StartRoundID, f.EndBlock})
+		}
+	}
 	for k, v := range agc.validatorsPower {
 		d.Powers = append(d.Powers, VPower{k, bs(v)})
 	}
